@@ -7,6 +7,7 @@ import (
 
 	protocol "github.com/longportapp/openapi-protocol/go"
 	"github.com/longportapp/openapi-protocol/go/gzip"
+	"github.com/longportapp/openapi-protocol/go/verifhook"
 	v1 "github.com/longportapp/openapi-protocol/go/v1"
 )
 
@@ -167,6 +168,7 @@ func (p *protocolV2) Pack(ctx *protocol.Context, packet *protocol.Packet, opts .
 		if packet.Body, err = gzip.Compress(packet.Body); err != nil {
 			return nil, err
 		}
+		verifhook.Point("pack:after-compress")
 
 		bl = len(packet.Body)
 		packet.Metadata.Gzip = true
